@@ -4,6 +4,7 @@ import (
 	"bytes"
 	"crypto/ed25519"
 	"encoding/base64"
+	"encoding/hex"
 	"encoding/json"
 	"fmt"
 	"net/http"
@@ -594,7 +595,10 @@ func c18RunAPI(t *testing.T, st *vstat.Stats, p c18API) (v *viol) {
 	}
 	rec := tr.Ops[p.Op%len(tr.Ops)]
 	route := c18Routes[p.Route]
-	idBytes := []byte(tr.Round)
+	idBytes, herr := hex.DecodeString(tr.Round) // the forms carry the round identifier as raw bytes
+	if herr != nil {
+		idBytes = []byte(tr.Round)
+	}
 	var body []byte
 	switch route {
 	case "/handleProcessedOperationJSON":
@@ -681,6 +685,7 @@ func TestC18(t *testing.T) {
 	rapidProp(t, st, "poisoned-continuation", perShard(pick(6400, 300000)), 4, c18GenGentle, func(p c18Msg) *viol { return c18RunMsg(t, st, p) })
 	rapidProp(t, st, "operations", perShard(pick(1600, 60000)), 2, c18GenOp, func(p c18Op) *viol { return c18RunOp(t, st, p) })
 	rapidProp(t, st, "api", perShard(pick(2400, 100000)), 3, c18GenAPI, func(p c18API) *viol { return c18RunAPI(t, st, p) })
+	rapidProp(t, st, "range-bounds", perShard(pick(1600, 40000)), 5, c18GenRange, func(p c18Range) *viol { return c18RunRange(t, st, p) })
 }
 
 var _ = storage.Message{}
